@@ -276,7 +276,7 @@ func pubForm(form string, x *big.Int, P pt) []byte {
 func runSigParse(ctx *vrun.Ctx) error {
 	inst := 1
 	if ctx.Thorough {
-		inst = 6
+		inst = 5
 	}
 	cfg := fmt.Sprintf("CONSTANTS Instances = %d\nINIT Init\nNEXT Next\nINVARIANTS TypeOK RangeSound StrictDecided ReserSound\n", inst)
 	res, err := tlc.Run(tlc.Opts{SpecDir: ctx.SpecDir("secp"), Module: "SigParse", CfgText: cfg, Workers: 2,
